@@ -94,6 +94,12 @@ def respell(argv, spelling, outdir):
                 # name they really write to); plot exports derive the format from the extension
                 if out[i - 1] not in ("--save_plot", "--serialize_plot"):
                     out[i] = os.path.splitext(out[i])[0]
+            elif spelling == "blank":
+                # a name that ends in a blank (pasted with the trailing space, quoted on the shell):
+                # a different file than the name without it; plot exports derive the format from
+                # the extension and are left alone
+                if out[i - 1] not in ("--save_plot", "--serialize_plot"):
+                    out[i] = out[i] + " "
             elif spelling == "tilde":
                 # an unexpanded '~' (quoted on the shell, or taken from a config file) is an
                 # ordinary directory name: ./~/<file>
@@ -294,8 +300,8 @@ def k_cell(run, case):
         if case["scenario"].startswith("evo_res"):
             ctx["zips"] = make_res_zips(work, ind)
         srng = run.rng(case, stream=6)
-        ctx["spelling"] = case.get("spelling") or ["plain", "plain", "dot", "abs", "dotdot", "tilde", "noext", "envvar"][srng.integers(8)]
-        if S.collision and ctx["spelling"] == "noext":
+        ctx["spelling"] = case.get("spelling") or ["plain", "plain", "dot", "abs", "dotdot", "tilde", "noext", "envvar", "blank"][srng.integers(9)]
+        if S.collision and ctx["spelling"] in ("noext", "blank"):
             ctx["spelling"] = "plain"  # (the two outputs must keep naming the same target)
         # A) discover the outputs of this scenario in an empty directory, warnings off
         outA = os.path.join(work, "A")
